@@ -33,7 +33,7 @@ def run(pid, tier, seed, replay=None):
         npts = 0
         for r in rows:
             c = cases[r["case"]]
-            desc = {"order": c["n"], "knots": c["t"], "coef": c["c"], "tau": c["tau"], "layout": r["layout"], "api": r["api"], "example": r["example"]}
+            desc = {"order": c["n"], "knots": c["t"], "coef": c["c"], "tau": c["tau"], "layout": r["layout"], "affine_image": r.get("affine", 0), "api": r["api"], "example": r["example"]}
             even = c["n"] % 2 == 0
             if not r["completed"]:
                 ck.violation({"class": "convolve-failed", "order": c["n"], "api": r["api"]}, dict(desc, err=r["err"]))
@@ -46,7 +46,7 @@ def run(pid, tier, seed, replay=None):
         ck.cov["evaluations"] = npts
         ck.cov["distinct_nontrivial"] = len(cases)
         ck.cov["pairs_order_kernelknots"] = sorted({(c["n"], len(c["tau"])) for c in cases})
-        ck.cov["rule"] = ("TLC-enumerated (source spline, kernel) pairs: orders 0..5 x three integer knot families x two lengths x every unit coefficient vector and one mixed vector, kernels = increasing 2..7-point subsets of a half-integer lattice (a seed-rotated 1/Keep sample) plus a hand-written catalogue; order + kernel degree limited per family by 32-bit exact arithmetic (5..7); every half-integer point of the convolved knot range; each as 1-D table and as dimension 0 / 1 of separable 2-D and 3-D tables")
+        ck.cov["rule"] = ("TLC-enumerated (source spline, kernel) pairs: orders 0..5 x three integer knot families x two lengths x every unit coefficient vector and one mixed vector, kernels = increasing 2..7-point subsets of a half-integer lattice (a seed-rotated 1/Keep sample) plus a hand-written catalogue; order + kernel degree limited per family by 32-bit exact arithmetic (5..7); every half-integer point of the convolved knot range; each as 1-D table and as dimension 0 / 1 of separable 2-D and 3-D tables (and 2 / 3 of 3-D / 4-D ones); each case also under three affine images of the knots (0.1 spacing, thirds with offsets, an irrational scale with a large offset) whose pairwise sums are not exactly representable")
         return ck.finish(exhaustive=False)
     finally:
         if not os.environ.get("VERIF_KEEP"):
